@@ -1,3 +1,211 @@
 import FiberModel.DriverUtil
--- stub driver for C01; replaced when the property's model lands
-def main : IO Unit := pure ()
+import FiberModel.C01.Spec
+/-
+Driver for C01. Case fields (after the id):  cfg  regs  paths  method  obs
+(see harness/cmd/c01/main.go for the grammar). The single-route decisions `mb` shipped in the
+observation instantiate `Env.M`; everything else (normalisation, tree key, index, cursor, merge,
+404/405/Allow) is computed by the model. The spec oracle evaluates `linear` with the same decisions
+and compares it with what the real dispatcher did.
+-/
+open B DriverUtil C01
+
+def methodNames : List String :=
+  ["GET", "HEAD", "POST", "PUT", "DELETE", "CONNECT", "OPTIONS", "TRACE", "PATCH"]
+
+def maxDet : Nat := 3
+
+def methodInt (s : String) : Option Nat := methodNames.idxOf? s
+
+def dotHex (s : String) : Option (List Bytes) :=
+  if s == "-" then some []
+  else (s.splitOn ".").mapM fun e => if e == "_" then some [] else fromHexAux e.toList
+
+def hexDot (l : List Bytes) : String :=
+  if l.isEmpty then "-" else ".".intercalate (l.map fun e => if e.isEmpty then "_" else toHex e)
+
+def parseScript (npaths : Nat) (s : String) : Option (Script Nat) :=
+  match s.toList with
+  | ['n'] => some .next
+  | ['s'] => some .stop
+  | 'f' :: r => (String.ofList r).toNat?.bind fun c => if 400 ≤ c ∧ c ≤ 599 then some (.fail c) else none
+  | 'p' :: r => (String.ofList r).toNat?.bind fun i => if 1 ≤ i ∧ i < npaths then some (.setPath i) else none
+  | 'm' :: r => (methodInt (String.ofList r)).map .setMethod
+  | _ => none
+
+def parseHandler (npaths : Nat) (s : String) : Option (Handler Nat) :=
+  match s.splitOn "~" with
+  | [h, sc] => do
+    let hid ← h.toNat?
+    let sc ← parseScript npaths sc
+    pure { hid := hid, script := sc }
+  | _ => none
+
+structure RegIn where
+  kind : String
+  reg : Reg Nat
+
+def allMethods : List Nat := List.range methodNames.length
+
+def parseReg (cfg : Cfg) (npaths : Nat) (s : String) : Option RegIn :=
+  match s.splitOn ":" with
+  | [k, ms, ch, p, hs] => do
+    let chain ← dotHex ch
+    let path ← fromHex p
+    let handlers ← (hs.splitOn ".").mapM (parseHandler npaths)
+    if handlers.isEmpty then none
+    let methods ← (if k == "A" then (if ms == "-" then none else (ms.splitOn ".").mapM methodInt)
+                   else if ms == "-" then some allMethods else none)
+    if methods.isEmpty || methods.eraseDups.length != methods.length then none
+    let joined ← (match k with
+      | "G" => if chain.isEmpty then none else some (groupPrefix chain)
+      | "U" | "A" | "L" => some (if chain.isEmpty then path else getGroupPath (groupPrefix chain) path)
+      | _ => none)
+    let raw := rawPath joined
+    let use := k == "U" || k == "G"
+    pure { kind := k, reg := { methods := methods, use := use, raw := raw,
+                               key := treeKey maxDet (prettyPath cfg raw), handlers := handlers } }
+  | _ => none
+
+def parseCfg (s : String) : Option (Cfg × Bool) :=
+  match s.toList with
+  | ['c', a, 's', b, 'u', c, 'x', d] =>
+    if [a, b, c, d].all (fun x => x == '0' || x == '1') then
+      some ({ caseSensitive := a == '1', strict := b == '1', unescape := c == '1' }, d == '1')
+    else none
+  | _ => none
+
+structure ObsIn where
+  t : String
+  s : String
+  a : String
+  ps : String
+  tr : String
+  mb : List (List Bool)
+  ab : List (List Bool)
+  mbRaw : String
+
+def parseBits (s : String) : List (List Bool) := (s.splitOn ".").map fun r => r.toList.map (· == '1')
+
+def parseObs (s : String) : Option ObsIn := do
+  let kv := (s.splitOn ";").filterMap fun p => match p.splitOn "=" with
+    | [k, v] => some (k, v) | _ => none
+  let get (k : String) : Option String := (kv.find? (·.1 == k)).map (·.2)
+  pure { t := ← get "t", s := ← get "s", a := ← get "a", ps := ← get "ps", tr := ← get "tr",
+         mb := parseBits (← get "mb"), ab := parseBits (← get "ab"), mbRaw := ← get "mb" }
+
+def pathOK (p : Bytes) : Bool :=
+  p.head? == some 47 && !(p.take 2 == [47, 47]) && p.all fun c => c > 32 && c != 63 && c != 35 && c < 127
+
+def renderTrace (t : List Nat) : String :=
+  if t.isEmpty then "-" else ".".intercalate (t.map toString)
+
+def renderEnd (e : End) : String × String :=
+  match e with
+  | .stop => ("200", "-")
+  | .fail c => (toString c, "-")
+  | .notFound => ("404", "-")
+  | .notAllowed al =>
+    let names := (al.map fun i => methodNames.getD i "?").toArray.qsort (· < ·) |>.toList
+    ("405", ".".intercalate names)
+  | .outOfFuel => ("loop", "-")
+
+def renderTree (t : List (Nat × List (Route Nat))) : String :=
+  let sorted := t.toArray.qsort (fun a b => a.1 < b.1) |>.toList
+  if sorted.isEmpty then "-"
+  else "/".intercalate (sorted.map fun (k, rs) => s!"{k}:{".".intercalate (rs.map fun r => toString r.pos)}")
+
+def renderBits (b : List (List Bool)) : String :=
+  ".".intercalate (b.map fun r => String.ofList (r.map fun x => if x then '1' else '0'))
+
+def handleCase (f : List String) : Except String Verdict := do
+  match f with
+  | [id, cfgS, regsS, pathsS, methodS, implObs] =>
+    let some (cfg, _custom) := parseCfg cfgS | throw "outside-domain: cfg"
+    let some paths := hexList pathsS | throw "outside-domain: paths"
+    if paths.isEmpty then throw "outside-domain: no request path"
+    if !(paths.all pathOK) then throw "outside-domain: path outside the harness' request alphabet"
+    let some m := methodInt methodS | throw "outside-domain: method"
+    if regsS.isEmpty || regsS == "-" then throw "outside-domain: empty table"
+    let some regsIn := (regsS.splitOn ";").mapM (parseReg cfg paths.length) | throw "outside-domain: regs"
+    let regs := regsIn.map (·.reg)
+    if implObs == "panic" then throw "outside-domain: harness reported a panic"
+    let some o := parseObs implObs | throw "unparsable observation"
+    let np := paths.length
+    if o.mb.length != regs.length || o.ab.length != regs.length ||
+        !(o.mb.all (·.length == np)) || !(o.ab.all (·.length == np)) then
+      throw "observation: bit matrix shape"
+    let pathBytes (i : Nat) : Bytes := ctxPath cfg (paths.getD i [])
+    -- single-route decisions of the real matcher, keyed by (Route.Path, use)
+    let rows := regs.zip o.mb
+    let M (raw : Bytes) (use : Bool) (p : Nat) : Bool :=
+      match rows.find? (fun x => x.1.raw == raw && x.1.use == use) with
+      | some x => x.2.getD p false
+      | none => false
+    let E : Env Nat Nat :=
+      { M := M
+        pkey := fun p => pathHash maxDet (detectionPath cfg (pathBytes p))
+        setp := fun cur o => if pathBytes cur == paths.getD o [] then none else some o
+        nMethods := methodNames.length }
+    -- the matcher must be a function of (Route.Path, use, path): identical registrations agree
+    let consistent := rows.all fun x => rows.all fun y =>
+      !(x.1.raw == y.1.raw && x.1.use == y.1.use) || x.2 == y.2
+    -- model
+    let S := build true regs
+    let fuel := 4000
+    let mo := match dispatchS E S false fuel m 0 with
+      | .ok ob => ob
+      | .error _ => { trace := [], fin := .outOfFuel }
+    let looped := mo.fin == .outOfFuel || mo.trace.length > 1000
+    let (ms, ma) := renderEnd mo.fin
+    let modelAb := regs.map fun g =>
+      let g1 : Reg Nat := { g with handlers := [{ hid := 1, script := .stop }] }
+      let S1 := build true [g1]
+      (List.range np).map fun j =>
+        match dispatchS E S1 false 8 (g.methods.headD 0) j with
+        | .ok ob => !ob.trace.isEmpty
+        | .error _ => false
+    let modelPs := hexDot ((List.range np).map pathBytes)
+    let modelObs :=
+      if looped then s!"t=loop;s=loop;a=-;ps={modelPs};tr={renderTree (S.tree m)};mb={o.mbRaw};ab={renderBits modelAb}"
+      else s!"t={renderTrace mo.trace};s={ms};a={ma};ps={modelPs};tr={renderTree (S.tree m)};mb={o.mbRaw};ab={renderBits modelAb}"
+    -- spec oracle on the implementation's observation
+    let want := linear E regs m 0
+    let (ws, wa) := renderEnd want.fin
+    let aloneBad : Option String :=
+      ((List.range regs.length).flatMap fun i => (List.range np).map fun j => (i, j)).findSome? fun (i, j) =>
+        if (o.ab.getD i []).getD j false != (o.mb.getD i []).getD j false then
+          some s!"alone-match reg={i} path={j} alone={(o.ab.getD i []).getD j false} match={(o.mb.getD i []).getD j false}"
+        else none
+    let spec : Option String :=
+      if !consistent then some "match-depends-on-context"
+      else if o.t == "loop" then none
+      else if o.t != renderTrace want.trace then some s!"first-match want t={renderTrace want.trace} s={ws}"
+      else if o.s != ws then some s!"status want s={ws}"
+      else if o.a != wa then some s!"allow want a={wa}"
+      else aloneBad
+    -- known-finding regions (instrumented model run)
+    let known : Option String := match dispatchS E S true fuel m 0 with
+      | .error .k1 => some "K1"
+      | .error .k2 => some "K2"
+      | .ok _ => none
+    -- tags
+    let nmatch := (regs.zip o.mb).countP fun x => x.1.methods.contains m && x.2.headD false
+    let det := detectionPath cfg (pathBytes 0)
+    let cand := candidates E S m 0
+    let tags : List String :=
+      [s!"s{ws}"] ++
+      (if nmatch ≥ 2 then ["nt-multi"] else []) ++
+      (if cand.length < (S.stack m).length then ["nt-index-prunes"] else []) ++
+      (if det.length < maxDet then ["short-path"] else []) ++
+      (if (S.stack m).any (fun r => r.handlers.any (·.seam)) then ["merged"] else []) ++
+      (if regs.any (fun g => g.handlers.any fun h => match h.script with | .setPath _ => true | _ => false)
+        then ["has-setpath"] else []) ++
+      (if regs.any (fun g => g.handlers.any fun h => match h.script with | .setMethod _ => true | _ => false)
+        then ["has-setmethod"] else []) ++
+      (if ws == "405" then ["nt-405"] else []) ++
+      (if looped then ["loop"] else []) ++
+      (match known with | some k => [s!"region-{k}"] | none => [])
+    pure { id := id, modelObs := modelObs, implObs := implObs, spec := spec, known := known, tags := tags }
+  | _ => throw s!"outside-domain: expected 6 fields, got {f.length}"
+
+def main : IO Unit := run handleCase
